@@ -204,6 +204,36 @@ def r3(run):
 CATCH_ALL = {"StreamItemGet": "Get", "StreamItemRemove": "Delete", "StreamAppend": "Post"}
 
 
+def rejection_variants(run):
+    """Routes variants whose arm in api::handle goes straight to a `response_4xx / 5xx` responder (no store operation, no handler):
+    answers like NotFound / BadRequest, not routes to a resource."""
+    hb = handle_body(run)
+    out = set()
+    if hb is None:
+        return out
+    for bb, si in hb.switches():
+        if si["kind"] != "variant" or si.get("adt") != "xs::api::Routes":
+            continue
+        for (t, lab, m) in si["edges"]:
+            if not isinstance(m, str):
+                continue
+            first, seen, todo = [], set(), [t]
+            while todo:
+                x = todo.pop()
+                if x in seen:
+                    continue
+                seen.add(x)
+                term = hb.blocks[x]["term"]
+                cs = [c for c in hb.calls() if c.bb == x]
+                if cs and (cs[0].local or cs[0].fn.startswith("xs::")):
+                    first.append(cs[0].fn)
+                    continue
+                todo += [t2 for (t2, _) in hb.succ(x)]
+            if first and all(f.startswith("xs::api::response_") and f[len("xs::api::response_"):][:1] in "45" for f in first):
+                out.add(m)
+    return out
+
+
 def r6(run):
     b = C.body_or_fail(run, MATCH_ROUTE)
     # method regions
@@ -255,8 +285,11 @@ def r6(run):
                 run.ob("%s|%s|after|%s:%s" % (MATCH_ROUTE, variant, t["kind"], t["lit"]), q.dominated(b, bi, via_edges=t["false"]), sp,
                        "the catch-all %s arm is reached only when the more specific test %s %r failed" % (variant, t["kind"], t["lit"]), reason="route-specificity")
     # every specific route is dominated by the true edge of one literal test of its own method
+    rejects = rejection_variants(run)
+    run.ob(MATCH_ROUTE + "|rejection-answers", {"NotFound", "BadRequest"} <= rejects, b.sp,
+           "the arms of api::handle that only answer 4xx / 5xx are recognised (%s)" % sorted(rejects), reason="mechanism-not-found")
     for variant, sites in arms.items():
-        if variant in CATCH_ALL or variant in ("NotFound", "BadRequest"):
+        if variant in CATCH_ALL or variant in rejects:
             continue
         for (bi, sp) in sites:
             doms = [t for t in tests if q.dominated(b, bi, via_edges=t["true"])]
